@@ -5,6 +5,7 @@ FIXED_BASE by which its raw integer is scaled."""
 import ast
 
 from .common import *
+from ..evalx import ClassRef
 from ..dsl import Ctx as Dsl
 from .c01 import (operand_kinds, make, kind_str, is_fixed_kind,
                   is_signed_kind, term_with_neg, r4_formats)
@@ -48,6 +49,7 @@ def run(chk, repo):
     chk.doc("R02.2", "exact decimal conversion (round, not truncate)")
     chk.doc("R02.3", "Python-side read of fixed-point map variables")
     algebra(chk, repo, d)
+    unaries(chk, repo, d)
     comparisons(chk, repo, d)
     stores(chk, repo, d)
     rounding(chk, repo, d)
@@ -122,6 +124,51 @@ def algebra(chk, repo, d):
     chk.floor("R02.1", "operator rows folded", rows, 500)
 
 
+def unaries(chk, repo, d):
+    """-x and abs(x) for every operand kind, constants made from Python
+    numbers included: the result carries the operand's scale, and its
+    fixed flag says so.  Every class below Expression that defines the
+    operator is asked (a Constant folding its own negation, say)."""
+    exprs, regs, _ = operand_kinds(d)
+    cc = repo.cls(E + "Constant")
+    fails = []
+    rows = 0
+    for name, fn in (("__neg__", lambda n: -n), ("__abs__", abs)):
+        cases = [(kind_str(k), make(d, k, "a"), {}) for k in exprs + regs]
+        for n in (7, -7, 2.5, -2.5, 0.29):
+            try:
+                c = d.ev.construct(cc, [d.ebpf, n], {})
+            except (Unknown, Raised) as e:
+                raise AnalysisError(f"R02.1: Constant({n}): {e}")
+            cases.append((f"constant {n!r}", c, {"a": n, "r": fn(n)}))
+        for what, a, nums in cases:
+            rows += 1
+            try:
+                fa = bool(d.flag(a, "fixed"))
+                o = d.unary(name, a)
+                tree, k, probs = d.term(o, {"a"}, nums)
+                fx = bool(d.flag(o, "fixed"))
+            except Raised as e:
+                fails.append(f"{name} of {what}: raises {e.what}")
+                continue
+            except Unknown as e:
+                raise AnalysisError(f"R02.1: cannot fold {name} of {what}: "
+                                    f"{e}")
+            if probs:
+                fails.append(f"{name} of {what}: {probs[0]}")
+            elif fx != fa:
+                fails.append(f"{name} of {what}: result flagged fixed={fx}, "
+                             f"the operand fixed={fa}")
+            elif k != (1 if fx else 0):
+                fails.append(f"{name} of {what}: raw value is "
+                             f"{d.show((tree, k))} but the result is "
+                             f"flagged fixed={fx}")
+    chk.ob("R02.1", E + "Expression", f"unary minus and abs keep the "
+           f"operand's scale ({rows} operand kinds)", not fails,
+           repo.cls(E + "Expression").node, "; ".join(fails[:4]) or
+           "scale of the result equals its fixed flag")
+
+
 def comparisons(chk, repo, d):
     rows = 0
     for op in CMPS:
@@ -167,6 +214,24 @@ def comparisons(chk, repo, d):
     chk.floor("R02.1", "comparison rows folded", rows, 300)
 
 
+def _with_locals(scale):
+    """the scale adjustment together with the plain assignments before it
+    (same block) that bind the names its tests read - `fixed = self.fmt ==
+    'x'` before `if fixed and not value.fixed`"""
+    holder = scale._parent
+    lst = next((getattr(holder, fld) for fld in ("body", "orelse",
+                                                 "finalbody")
+                if scale in getattr(holder, fld, [])), None)
+    if lst is None:
+        return [scale]
+    read = {n.id for t in ast.walk(scale) if isinstance(t, ast.If)
+            for n in ast.walk(t.test) if isinstance(n, ast.Name)}
+    pre = [s for s in lst[:lst.index(scale)] if isinstance(s, ast.Assign)
+           and len(s.targets) == 1 and isinstance(s.targets[0], ast.Name)
+           and s.targets[0].id in read and s.targets[0].id != "value"]
+    return pre + [scale]
+
+
 def stores(chk, repo, d):
     ev = d.ev
     # Memory._set: the scale adjustment statement
@@ -182,7 +247,7 @@ def stores(chk, repo, d):
             v = d.expr("v", True, vf)
             env = {"self": Obj(mc, {"fmt": fmt, "ebpf": d.ebpf}), "value": v}
             try:
-                ev.run_stmt(ifs[0], env)
+                ev.run_block(_with_locals(ifs[0]), env)
                 tree, k, probs = d.term(env["value"], {"v"})
             except (Raised, Unknown) as e:
                 fails.append(f"fmt {fmt!r}, value fixed={vf}: {e}")
@@ -210,7 +275,7 @@ def stores(chk, repo, d):
             env = {"self": Obj(ra, {"fixed": rf, "ebpf": d.ebpf}),
                    "value": v}
             try:
-                ev.run_stmt(ifs[0], env)
+                ev.run_block(_with_locals(ifs[0]), env)
                 tree, k, probs = d.term(env["value"], {"v"})
             except (Raised, Unknown) as e:
                 fails.append(f"view fixed={rf}, value fixed={vf}: {e}")
@@ -251,7 +316,9 @@ def stores(chk, repo, d):
                 rows += 1
                 env = {"self": mk_self(dest), "value": c, "no": 3}
                 try:
-                    ev.run_block(prelude + [scale], env)
+                    ev.run_block([p_ for p_ in prelude if p_ not in
+                                  _with_locals(scale)]
+                                 + _with_locals(scale), env)
                     tree, k, probs = d.term(env["value"], {"c"}, {"c": c})
                 except (Raised, Unknown, AnalysisError) as e:
                     fails.append(f"{dest!r} = {c}: {e}")
@@ -290,8 +357,19 @@ def rounding(chk, repo, d):
              ("ebpfcat.hashmap.HashGlobalVarDesc.__set__", "value")]
     n = 0
     for sym, target in sites:
-        f = repo.func(sym)
+        repo.func(sym)
         chk.analysed(sym)
+    # the conversions are looked for wherever they stand (a helper shared
+    # by the three consumers included): every product of a Python number
+    # and FIXED_BASE in the production code
+    allf = []
+    for fn in repo.all_functions():
+        if any(isinstance(b, ast.BinOp) and isinstance(b.op, ast.Mult)
+               and any((dotted(x) or "").endswith("FIXED_BASE")
+                       for x in (b.left, b.right))
+               for b in walk_no_nested(fn)):
+            allf.append((func_qual(repo, fn.body[0]), fn))
+    for sym, f in allf:
         prods = [b for b in walk_no_nested(f) if isinstance(b, ast.BinOp)
                  and isinstance(b.op, ast.Mult) and any(
                      (dotted(x) or "").endswith("FIXED_BASE")
@@ -320,7 +398,8 @@ def rounding(chk, repo, d):
                 mod = f._module
                 free = sorted(n for n in {x.id for x in ast.walk(top)
                                           if isinstance(x, ast.Name)}
-                              if n != "self" and n not in mod.symbols
+                              if n not in ("self", "cls")
+                              and n not in mod.symbols
                               and n not in mod.imports
                               and n not in ("int", "round", "float"))
                 bad = []
@@ -328,6 +407,8 @@ def rounding(chk, repo, d):
                 for v in DECIMALS + [-1e-05, -0.57, 1e-05, 123456.78901]:
                     env = {nm: v for nm in free}
                     env["self"] = Obj(ci, {})
+                    if ci is not None:
+                        env["cls"] = ClassRef(ci)
                     try:
                         got = Evaluator(repo, f._module).eval(top, env)
                     except (Raised, Unknown):
@@ -350,7 +431,7 @@ def rounding(chk, repo, d):
                            f"on {len(DECIMALS) + 4} inexact decimals of both "
                            f"signs")
             chk.ob("R02.2", sym, f"`{unparse(p)}` is rounded", ok, p, why)
-    chk.floor("R02.2", "float -> scaled integer conversions", n, 3)
+    chk.floor("R02.2", "float -> scaled integer conversions", n, 1)
     # tabulate Constant on decimals that are not exact in binary
     cc = repo.cls(E + "Constant")
     fails = []
